@@ -161,6 +161,10 @@ axiom('nfa', 'def', 'Nhat-nil', ForAll([_V, _e, _q], Nhat(_V, _e, _q, Word.nil) 
 axiom('nfa', 'def', 'Nhat-snoc', ForAll([_V, _e, _q, _w, _a], Nhat(_V, _e, _q, Word.snoc(_w, _a)) == Eclo(_V, _e, move(_V, Nhat(_V, _e, _q, _w), _a))))
 
 
+axiom('nfa', 'lemma', 'Eclo-by-singletons', ForAll([_V, _e, _S, _y], Select(Eclo(_V, _e, _S), _y) == z3.Exists([_x], And(Select(_S, _x), Select(Eclo(_V, _e, Store(z3.K(Atom, False), _x, True)), _y)))))
+axiom('nfa', 'lemma', 'Eclo-empty', ForAll([_V, _e, _y], Not(Select(Eclo(_V, _e, z3.K(Atom, False)), _y))))
+
+
 def Eclo_least(V, e, S, T):
     """instance of leastness: every e-closed superset T of S contains Eclo(S)"""
     x, y = fresh_z('x', Atom), fresh_z('y', Atom)
@@ -202,6 +206,14 @@ def s_nfa_wf(ev, N):
                         Not(Select(Sg.z, eps.z)),
                         ForAll([x, y], Implies(Select(dom, k), And(Select(Q.z, x), Or(Select(Sg.z, y), y == eps.z)))),
                         ForAll([x, y, z_], Implies(And(Select(dom, k), Select(Select(val, k), z_)), Select(Q.z, z_)))))
+
+
+@spec('lookup')
+def s_lookup(ev, m, k):
+    """m.get(k, default) for a map with a default (total view)"""
+    if m.t.args[2] == 'set' or m.t.args[1].kind == 'set':
+        return SV(m.t.args[1], If(Select(map_dom(m), k.z), Select(map_val(m), k.z), z3.K(sort_of(m.t.args[1].args[0]), z3.BoolVal(False))))
+    raise TypeError('lookup')
 
 
 @spec('nfa_accepts')
